@@ -60,6 +60,7 @@ struct VmWorld : HookSink {
   std::set<Loc> enabled;
   bool stepping = false;
   bool since_reset_clean = true;  // no instruction executed since construction / reset
+  int stopped_site = -1;          // pc of the site the machine stopped at and has not left since
   // monitor used while the library runs VM::execute()
   bool mon_on = false;
   size_t mon_t = 0, mon_stop_t = 0;
@@ -475,6 +476,15 @@ struct VmWorld : HookSink {
     }
   }
 
+  // the machine has not moved since it stopped at a site: the reported location is still that site's
+  void check_location_while_stopped(const char *when) {
+    if (stopped_site < 0 || !tables_ok) return;
+    BreakPoint cur = vm->getCurrentBreak();
+    if (!(to_loc(cur) == sites[stopped_site]))
+      ctx.check(false, "C06", "current_location_while_stopped", std::string(when) + ": still stopped at site " + std::to_string(stopped_site) + " (" + loc_str(sites[stopped_site]) + ") but getCurrentBreak() = " + cur.file + ":" + std::to_string(cur.line));
+    ctx.stats.inc("probe_location_queried_after_debugger_op_while_stopped");
+  }
+
   void check_enabled_set(const char *when) {
     std::set<BreakPoint> &e = vm->getEnabledBreakPoints();
     std::set<Loc> got;
@@ -503,6 +513,7 @@ struct VmWorld : HookSink {
         ctx.check(false, "C08", "reported_location_can_be_enabled", std::string(when) + ": stop reports " + cur.file + ":" + std::to_string(cur.line) + " which setBreakPoint refuses");
       if (cur.file == "__standards__") ctx.check(false, "C08", "location_is_real_line", "stop reports the hidden standard-macro file");
     }
+    stopped_site = pc;
     check_stop_against_reference(*vm, pc, G.rank[t], when);
     ctx.stats.inc("stops");
     if (G.depth[t] > 1) ctx.stats.inc("probe_stop_inside_callee");
@@ -547,11 +558,12 @@ struct VmWorld : HookSink {
         if (exec_state_hash(*vm) != before) ctx.check(false, "C17", "end_is_absorbing", "executeSingle at the end of the program changed the state");
       } else {
         t++;
+        stopped_site = -1;
+        check_boundary(*vm, "after executeSingle");
         check_position("after executeSingle");
         if (tables_ok && r != expect)
           ctx.check(false, "C06", "single_step_return_value", "executeSingle at " + std::to_string(pc) + " returned " + (r ? "true" : "false") + ", expected " + (expect ? "true" : "false") + " (stepping=" + std::to_string(stepping) + ")");
         if (r && sites.count(pc)) after_stop_checks(pc, "single step");
-        check_boundary(*vm, "after executeSingle");
       }
       ctx.ev("step", pc, r);
     }
@@ -589,11 +601,12 @@ struct VmWorld : HookSink {
       ctx.stats.inc("fault_resume_after_halt");
       if (exec_state_hash(*vm) != before) ctx.check(false, "C17", "end_is_absorbing", "execute() at the end of the program changed the state");
     }
+    if (new_t != t) stopped_site = -1;
     t = new_t;
+    check_boundary(*vm, "after execute()");
     check_position("after execute()");
     if (!halt && !was_at_halt) after_stop_checks(G.ip[s], "execute()");
     if (at_halt(t) && !vm->isDone()) ctx.check(false, "C06", "is_done", "at the end of the program isDone() is false");
-    check_boundary(*vm, "after execute()");
   }
 
   void do_bp(const Loc &l, bool on, const char *kind) {
@@ -608,6 +621,7 @@ struct VmWorld : HookSink {
     else if (!on && !before) ctx.stats.inc("fault_bp_disable_not_enabled");
     ctx.evs(kind, loc_str(l) + (on ? " on" : " off"));
     check_enabled_set("after setBreakPoint");
+    check_location_while_stopped("after setBreakPoint");
     check_code_integrity("after setBreakPoint");
     check_position("after setBreakPoint");
   }
@@ -644,6 +658,7 @@ struct VmWorld : HookSink {
       if (cur.line != -1 || cur.file != "none") ctx.check(false, "C06", "current_location_none_before_start", "before execution getCurrentBreak() = " + cur.file + ":" + std::to_string(cur.line));
     }
     check_enabled_set("inspection");
+    check_location_while_stopped("inspection");
     if (exec_state_hash(*vm) != h0) ctx.check(false, "C05", "same_state", "inspection changed the machine");
     ctx.ev("inspect", (long long)t);
   }
@@ -657,13 +672,13 @@ struct VmWorld : HookSink {
     if (!enabled.empty()) ctx.stats.inc("probe_reset_with_breakpoints");
     if (stepping) ctx.stats.inc("probe_reset_with_stepping");
     vm->reset();
-    t = 0; enabled.clear(); stepping = false; since_reset_clean = true;
+    t = 0; enabled.clear(); stepping = false; since_reset_clean = true; stopped_site = -1;
     ctx.ev("reset");
+    check_boundary(*vm, "after reset()");
     full_fresh_check("after reset()");
     check_enabled_set("after reset()");
     check_code_integrity("after reset()");
     check_position("after reset()");
-    check_boundary(*vm, "after reset()");
   }
 
   void run_session() {
@@ -695,12 +710,12 @@ struct VmWorld : HookSink {
         if (enabled.empty()) ctx.stats.inc("fault_clear_empty");
         vm->clearBreakpoints(); enabled.clear();
         ctx.ev("clear");
-        check_enabled_set("after clearBreakpoints"); check_code_integrity("after clearBreakpoints"); check_position("after clearBreakpoints");
+        check_enabled_set("after clearBreakpoints"); check_location_while_stopped("after clearBreakpoints"); check_code_integrity("after clearBreakpoints"); check_position("after clearBreakpoints");
       } else if (op.k == "stepmode") {
         if (t > 0 && !at_halt(t)) ctx.stats.inc("fault_stepmode_flip_midrun");
         vm->setSteppingMode(op.a != 0); stepping = op.a != 0;
         ctx.ev("stepmode", op.a);
-        check_enabled_set("after setSteppingMode"); check_position("after setSteppingMode");
+        check_enabled_set("after setSteppingMode"); check_location_while_stopped("after setSteppingMode"); check_position("after setSteppingMode");
       } else if (op.k == "reset") do_reset();
       else if (op.k == "inspect") do_inspect();
       if (ctx.violated) break;
@@ -724,6 +739,12 @@ struct VmWorld : HookSink {
       if (rp.valid) {
         ref = ref_run(rp, knob("ref_steps", 3000), (size_t)knob("ref_events", 1500));
         have_ref = true;
+        if (ref.jumps_into_loop) ctx.stats.inc("probe_jump_into_loop_body");
+        if (ref.jumps_out_of_loop) ctx.stats.inc("probe_jump_out_of_loop_body");
+        if (ref.jumps_backward) ctx.stats.inc("probe_backward_jump");
+        if (ref.stop_in_callee) ctx.stats.inc("probe_stop_statement_inside_callee");
+        if (ref.calls) ctx.stats.inc("workload_makes_calls");
+        if (ref.max_depth >= 3) ctx.stats.inc("probe_nested_calls_depth3");
       }
     }
     bool expect_reject = proj.has_ast && !rp.valid && rp.why_invalid.rfind("RUN ", 0) == 0;
